@@ -19,7 +19,7 @@ CHECKS = {
    note="a case is named all the way down or positional all the way down (tuple structs, index paths); leaves i32; deviation-bounded exploration (bound recorded in evidence)",
    technique=TECH_X + " + reference-model conformance through rustc and execution"),
  "C04": dict(level="model_checking", design="DESIGN.md §8 C04",
-   text="every multiset of <= 3 of the 24 trait-instruction names over 1-2 counterparts in every order x 6 counterpart type forms x 4 error type forms x struct|enum: the multiset of generated impl headers (trait path, Self, argument, type Error), read through a real parser, must equal the reference tables M_appl o M_hdr transcribed from README:190-264",
+   text="every multiset of <= 3 of the 24 trait-instruction names over 1-2 counterparts in every order x 7 counterpart type forms x 4 error type forms x struct|enum: the multiset of generated impl headers (trait path, Self, argument, type Error), read through a real parser, must equal the reference tables M_appl o M_hdr transcribed from README:190-264",
    note="headers only (bodies are C01-C03); T::<X> and T<X> are the same type; in-process expansion (fallback lexer, syn 1)",
    technique=TECH_X + " + comparison with a reference table model"),
  "C17": dict(level="exploration", design="DESIGN.md §8 C17",
